@@ -15,6 +15,7 @@ import (
 	assettypes "github.com/comdex-official/comdex/x/asset/types"
 	auctiontypes "github.com/comdex-official/comdex/x/auction/types"
 	liquidationtypes "github.com/comdex-official/comdex/x/liquidation/types"
+	auctionv1 "github.com/comdex-official/comdex/x/auction"
 	"github.com/comdex-official/comdex/x/auctionsV2"
 	auctionsV2types "github.com/comdex-official/comdex/x/auctionsV2/types"
 	collectortypes "github.com/comdex-official/comdex/x/collector/types"
@@ -987,6 +988,289 @@ func (s *c10seq) randomOps(rng *Rng, cfg c10cfg) {
 	}
 }
 
+// ---------------------------------------------------------------------------------------------
+// first generation (x/auction + x/liquidation): seized vault, MsgPlaceDutchBid, BeginBlocker
+// ---------------------------------------------------------------------------------------------
+
+type c10seq1 struct {
+	*c10seq
+	mapID uint64
+}
+
+func (s *c10seq1) state1() string {
+	k := s.f.app.AuctionKeeper
+	rec := "closed"
+	if a, err := k.GetDutchAuction(s.ctx, s.f.appID, s.mapID, s.aucID); err == nil {
+		rec = fmt.Sprintf("out=%s;in=%s;price=%s;init=%s;endp=%s;inp=%s;start=%d;end=%d", a.OutflowTokenCurrentAmount.Amount, a.InflowTokenCurrentAmount.Amount,
+			c10raw(a.OutflowTokenCurrentPrice), c10raw(a.OutflowTokenInitialPrice), c10raw(a.OutflowTokenEndPrice), c10raw(a.InflowTokenCurrentPrice), a.StartTime.Unix(), a.EndTime.Unix())
+	}
+	net := "none"
+	if nf, found := s.f.app.CollectorKeeper.GetNetFeeCollectedData(s.ctx, s.f.appID, s.p.debt.id); found {
+		net = nf.NetFeesCollected.String()
+	}
+	supply := s.f.app.BankKeeper.GetSupply(s.ctx, s.p.debt.denom).Amount.String()
+	minted := "-"
+	if m, found := s.f.app.VaultKeeper.GetAppExtendedPairVaultMappingData(s.ctx, s.f.appID, s.p.extID); found {
+		minted = m.TokenMintedAmount.String() + "/" + m.CollateralLockedAmount.String()
+	}
+	return rec + "\t" + s.balances1() + "\t" + fmt.Sprintf("net=%s;supply=%s;minted=%s", net, supply, minted)
+}
+
+// same account list, but "auction" is the first-generation module account
+func (s *c10seq1) balances1() string {
+	var sb []string
+	for _, n := range c10names {
+		a := s.acct(n)
+		if n == "auction" {
+			a = s.f.app.AccountKeeper.GetModuleAddress(auctiontypes.ModuleName)
+		}
+		c := s.f.app.BankKeeper.GetBalance(s.ctx, a, s.p.coll.denom).Amount
+		d := s.f.app.BankKeeper.GetBalance(s.ctx, a, s.p.debt.denom).Amount
+		sb = append(sb, n+":"+c.String()+":"+d.String())
+	}
+	return strings.Join(sb, ",")
+}
+
+type c10cfg1 struct {
+	pair      int
+	amountIn  sdk.Int
+	amountOut sdk.Int
+	dropTo    uint64
+	T         uint64
+	buffer    string
+	cusp      string
+	collector int64 // funds and net-fee record of the collector for the debt asset (0 = no record)
+}
+
+func c10start1(t *testing.T, f *c10fix, tr *Trace, cfg c10cfg1) *c10seq1 {
+	ctx, _ := f.base.CacheContext()
+	s := &c10seq1{c10seq: &c10seq{f: f, ctx: ctx, tr: tr, p: f.pairs[cfg.pair], kind: "v1", now: f.t0, h: 10}, mapID: 3}
+	app := f.app
+	fail := func(why string) *c10seq1 {
+		tr.Count("setup1:" + why)
+		return nil
+	}
+	app.AuctionKeeper.SetAuctionParams(ctx, auctiontypes.AuctionParams{AppId: f.appID, AuctionDurationSeconds: cfg.T, Buffer: c10dec(cfg.buffer), Cusp: c10dec(cfg.cusp),
+		Step: sdk.NewInt(1), PriceFunctionType: 1, SurplusId: 1, DebtId: 2, DutchId: 3, BidDurationSeconds: 3600})
+	_ = app.LiquidationKeeper.WasmWhitelistAppIDLiquidation(ctx, f.appID)
+	big := sdk.NewIntFromUint64(math.MaxInt64 / 4)
+	for _, n := range []string{"b1", "b2", "b4"} {
+		c10fund(t, app, ctx, c10addr(n), s.p.debt.denom, big)
+	}
+	c10fund(t, app, ctx, c10addr("b3"), s.p.debt.denom, cfg.amountOut.QuoRaw(2).AddRaw(5))
+	c10fund(t, app, ctx, c10addr("owner"), s.p.coll.denom, cfg.amountIn)
+	if cfg.collector > 0 {
+		c := sdk.NewCoins(sdk.NewCoin(s.p.debt.denom, sdk.NewInt(cfg.collector)))
+		if err := app.BankKeeper.MintCoins(ctx, auctionsV2types.ModuleName, c); err != nil {
+			t.Fatal(err)
+		}
+		if err := app.BankKeeper.SendCoinsFromModuleToModule(ctx, auctionsV2types.ModuleName, collectortypes.ModuleName, c); err != nil {
+			t.Fatal(err)
+		}
+		if err := app.CollectorKeeper.SetNetFeeCollectedData(ctx, f.appID, s.p.debt.id, sdk.NewInt(cfg.collector)); err != nil {
+			t.Fatal(err)
+		}
+	}
+	ok, _ := c10deliver(app, ctx, &vaulttypes.MsgCreateRequest{From: c10addr("owner").String(), AppId: f.appID, ExtendedPairVaultId: s.p.extID, AmountIn: cfg.amountIn, AmountOut: cfg.amountOut})
+	if !ok {
+		return fail("vault-create")
+	}
+	c10setTwa(app, ctx, s.p.coll.id, cfg.dropTo, true)
+	before := app.AuctionKeeper.GetAuctionID(ctx)
+	if err := app.LiquidationKeeper.LiquidateVaults(ctx); err != nil {
+		return fail("liquidate")
+	}
+	s.aucID = before + 1
+	a, err := app.AuctionKeeper.GetDutchAuction(ctx, f.appID, s.mapID, s.aucID)
+	if err != nil {
+		return fail("no-auction")
+	}
+	lv, found := app.LiquidationKeeper.GetLockedVault(ctx, f.appID, a.LockedVaultId)
+	if !found {
+		return fail("no-locked-vault")
+	}
+	ep, _ := app.AssetKeeper.GetPairsVault(ctx, lv.ExtendedPairId)
+	od := "0"
+	if ep.AssetOutOraclePrice {
+		od = "1"
+	}
+	tr.Line("dutch.v1.begin", fmt.Sprintf("decC=%d;decD=%d;target=%s;principal=%s;coll0=%s;dust=%d;T=%d;buffer=%s;cusp=%s;oracleDebt=%s;fixedDebt=%d;twaC=%d",
+		s.p.coll.dec, s.p.debt.dec, a.InflowTokenTargetAmount.Amount, lv.AmountOut, a.OutflowTokenInitAmount.Amount, ep.MinUsdValueLeft, cfg.T,
+		c10raw(c10dec(cfg.buffer)), c10raw(c10dec(cfg.cusp)), od, ep.AssetOutPrice, cfg.dropTo), s.state1())
+	tr.Count("begin:v1")
+	return s
+}
+
+func (s *c10seq1) auction1() (auctiontypes.DutchAuction, bool) {
+	a, err := s.f.app.AuctionKeeper.GetDutchAuction(s.ctx, s.f.appID, s.mapID, s.aucID)
+	return a, err == nil
+}
+
+func (s *c10seq1) bid1(who string, amt sdk.Int) {
+	ok, cl := c10deliver(s.f.app, s.ctx, &auctiontypes.MsgPlaceDutchBidRequest{Bidder: c10addr(who).String(), AuctionId: s.aucID, Amount: sdk.Coin{Denom: s.p.coll.denom, Amount: amt},
+		AppId: s.f.appID, AuctionMappingId: s.mapID})
+	s.tr.Count("bid1:" + cl)
+	if ok {
+		if _, open := s.auction1(); !open {
+			s.tr.Count("close1")
+		} else {
+			s.tr.Count("partial-fill1")
+		}
+	}
+	s.tr.Line("dutch.v1.bid", who, amt.String(), cl, s.state1())
+}
+
+func (s *c10seq1) tick1(dt time.Duration) {
+	s.now = s.now.Add(dt)
+	s.h++
+	s.ctx = s.ctx.WithBlockTime(s.now).WithBlockHeight(s.h)
+	tc, ac := s.collTwa()
+	td, ad := s.debtTwa()
+	app := s.f.app
+	panicked, _ := try(func() { auctionv1.BeginBlocker(s.ctx, app.AuctionKeeper, app.AssetKeeper, app.CollectorKeeper, app.EsmKeeper) })
+	cl := "ok"
+	if panicked {
+		cl = "panic"
+	}
+	b := func(x bool) string {
+		if x {
+			return "1"
+		}
+		return "0"
+	}
+	s.tr.Count("tick1:" + cl)
+	s.tr.Line("dutch.v1.tick", i64(s.now.Unix()), u(tc), b(ac), u(td), b(ad), cl, s.state1())
+}
+
+func c10genCfg1(f *c10fix, rng *Rng) c10cfg1 {
+	g := c10genCfg(f, rng)
+	cfg := c10cfg1{pair: g.pair, amountIn: g.amountIn, amountOut: g.amountOut, dropTo: g.dropTo, T: g.T, buffer: g.premium, cusp: g.discount}
+	switch rng.Intn(4) {
+	case 0:
+		cfg.collector = 0
+	case 1:
+		cfg.collector = int64(1 + rng.Intn(1000))
+	default:
+		cfg.collector = g.amountOut.Int64()*2 + 10
+	}
+	return cfg
+}
+
+func (s *c10seq1) randomOps1(rng *Rng, cfg c10cfg1) {
+	bidders := []string{"b1", "b2", "b3", "b4"}
+	nops := 3 + rng.Intn(12)
+	for o := 0; o < nops; o++ {
+		a, open := s.auction1()
+		if !open {
+			if rng.Chance(50) {
+				s.bid1(bidders[rng.Intn(4)], sdk.NewInt(int64(1+rng.Intn(1000000))))
+			} else {
+				s.tick1(time.Duration(1+rng.Intn(int(cfg.T)+5)) * time.Second)
+			}
+			if rng.Chance(60) {
+				return
+			}
+			continue
+		}
+		if rng.Intn(100) < 68 {
+			C := a.OutflowTokenCurrentAmount.Amount
+			tab := a.InflowTokenTargetAmount.Amount.Sub(a.InflowTokenCurrentAmount.Amount)
+			// collateral whose price equals x units of debt: x·inPrice·decC/(decD·outPrice)
+			collFor := func(x sdk.Int) sdk.Int {
+				den := a.OutflowTokenCurrentPrice.MulInt64(s.p.debt.dec)
+				if !den.IsPositive() {
+					return C
+				}
+				return a.InflowTokenCurrentPrice.MulInt(x).MulInt64(s.p.coll.dec).Quo(den).TruncateInt()
+			}
+			ep, _ := s.f.app.AssetKeeper.GetPairsVault(s.ctx, s.p.extID)
+			var amt sdk.Int
+			switch rng.Intn(14) {
+			case 0:
+				amt = sdk.NewInt(int64(1 + rng.Intn(3)))
+				s.tr.Count("bidkind1:tiny")
+			case 1:
+				amt = C
+				s.tr.Count("bidkind1:all")
+			case 2:
+				amt = C.AddRaw(1)
+				s.tr.Count("bidkind1:over")
+			case 3, 4:
+				amt = collFor(tab).AddRaw(int64(rng.Intn(5)) - 2) // the slice that reaches the target (±)
+				s.tr.Count("bidkind1:target-edge")
+			case 5:
+				amt = collFor(tab).MulRaw(2)
+				s.tr.Count("bidkind1:over-target")
+			case 6, 7:
+				// debt dust boundary: leave exactly dust (±) of debt value
+				// dust is micro-USD; debt units worth dust: dust·decD/inPrice
+				du := sdk.NewDec(int64(ep.MinUsdValueLeft)).MulInt64(s.p.debt.dec).Quo(a.InflowTokenCurrentPrice).TruncateInt()
+				amt = collFor(tab.Sub(du)).AddRaw(int64(rng.Intn(5)) - 2)
+				s.tr.Count("bidkind1:debt-dust-edge")
+			case 8, 9:
+				// collateral dust boundary: leave exactly dust (±) of collateral value: dust·decC/outPrice
+				if a.OutflowTokenCurrentPrice.IsPositive() {
+					cu := sdk.NewDec(int64(ep.MinUsdValueLeft)).MulInt64(s.p.coll.dec).Quo(a.OutflowTokenCurrentPrice).TruncateInt()
+					amt = C.Sub(cu).AddRaw(int64(rng.Intn(5)) - 2)
+				} else {
+					amt = C
+				}
+				s.tr.Count("bidkind1:coll-dust-edge")
+			case 10:
+				amt = sdk.NewInt(-5)
+				s.tr.Count("bidkind1:negative")
+			default:
+				amt = C.MulRaw(int64(1 + rng.Intn(95))).QuoRaw(100)
+				s.tr.Count("bidkind1:partial")
+			}
+			s.bid1(bidders[rng.Intn(4)], amt)
+		} else {
+			el := int64(s.now.Sub(a.StartTime) / time.Second)
+			T := int64(cfg.T)
+			var dt int64
+			switch rng.Intn(8) {
+			case 0:
+				dt = 1
+			case 1:
+				dt = T - el
+				s.tr.Count("tickkind1:end")
+			case 2:
+				dt = T - el - 1
+			case 3:
+				dt = T - el + 1
+				s.tr.Count("tickkind1:restart")
+			case 4:
+				dt = T/3 + 1
+			case 5:
+				dt = T + 1 + int64(rng.Intn(100))
+				s.tr.Count("tickkind1:restart")
+			default:
+				dt = 1 + int64(rng.Intn(int(T)+1))
+			}
+			if dt < 1 {
+				dt = 1
+			}
+			if rng.Chance(25) {
+				tc, _ := s.collTwa()
+				nt := tc * uint64(80+rng.Intn(41)) / 100
+				if nt == 0 {
+					nt = 1
+				}
+				s.setColl(nt, !rng.Chance(15))
+			}
+			if !s.p.cmst && rng.Chance(20) {
+				td, _ := s.debtTwa()
+				nt := td * uint64(90+rng.Intn(21)) / 100
+				if nt == 0 {
+					nt = 1
+				}
+				s.setDebt(nt, !rng.Chance(15))
+			}
+			s.tick1(time.Duration(dt) * time.Second)
+		}
+	}
+}
+
 func TestC10(t *testing.T) {
 	tr := OpenTrace(t, "c10.trace")
 	defer tr.Close(t)
@@ -1063,6 +1347,27 @@ func TestC10(t *testing.T) {
 			continue
 		}
 		s.randomOps(rng, cfg)
+	}
+
+	// ---- first generation: scripted close, then generated sequences
+	c1 := c10cfg1{pair: 0, amountIn: sdk.NewInt(1000000), amountOut: sdk.NewInt(1000000), dropTo: 1400000, T: 300, buffer: "1.2", cusp: "0.6", collector: 5000000}
+	s1 := c10start1(t, f, tr, c1)
+	s1.bid1("b1", sdk.NewInt(100000))
+	s1.tick1(100 * time.Second)
+	s1.bid1("b2", sdk.NewInt(5))
+	s1.bid1("b2", sdk.NewInt(899995))
+	c1.dropTo = 1000000
+	s1 = c10start1(t, f, tr, c1)
+	s1.tick1(250 * time.Second)
+	s1.bid1("b1", sdk.NewInt(1000000)) // collateral sold out below the target: the collector covers the rest
+	n1 := scale(150, 3000)
+	for i := 0; i < n1; i++ {
+		cfg := c10genCfg1(f, rng)
+		s := c10start1(t, f, tr, cfg)
+		if s == nil {
+			continue
+		}
+		s.randomOps1(rng, cfg)
 	}
 
 	// ---- generated sequences
